@@ -36,7 +36,7 @@ func syntaxOpValue(p *core.Prog, name string) (int64, bool) {
 func init() {
 	core.Register(&core.Rule{
 		Name: "R-ALTBRANCH",
-		Doc: "The branches of an alternation are alternatives, not a sequence: whatever a function over the syntax tree decides about an OpAlternate node by asking about its children, it has to ask every child. In every module function with a *syntax.Regexp parameter, in the code that is reached when the node's operator is OpAlternate because a comparison with that operator says so (blocks reachable under Op == OpAlternate and not under an operator the function never mentions), the calls that hand a child of the node (an element of its Sub) to a module function cover all children: there is a loop over Sub, and every index below the loop's start is covered by a call on that constant index. A call on Sub[0] alone - the alternation listed in the same case as OpConcat or OpCapture, for which the first child is the right one to ask - judges the whole alternation by its first branch: isDigitRunSkipSafe then calls `\\d+px|\\d{1,3}em` safe for digit-run skipping and the match 234em in 1234em is lost (seed C19-17). Necessary for C19 (a fast path is exact on every pattern it accepts) and C02.",
+		Doc: "The branches of an alternation are alternatives, not a sequence: whatever a function over the syntax tree decides about an OpAlternate node by asking about its children, it has to ask every child. In every module function with a *syntax.Regexp parameter, in the code that is reached when the node's operator is OpAlternate because a comparison with that operator says so (blocks reachable under Op == OpAlternate and not under an operator the function never mentions), the calls that hand a child of the node (an element of its Sub) to a module function cover all children: there is a loop over Sub (or the child list itself, Sub or Sub[k:], is handed to a helper), and every index below the loop's start is covered by a call on that constant index. A call on Sub[0] alone - the alternation listed in the same case as OpConcat or OpCapture, for which the first child is the right one to ask - judges the whole alternation by its first branch: isDigitRunSkipSafe then calls `\\d+px|\\d{1,3}em` safe for digit-run skipping and the match 234em in 1234em is lost (seed C19-17). Necessary for C19 (a fast path is exact on every pattern it accepts) and C02.",
 		Min: 15, NeedSSA: true,
 		Run: func(p *core.Prog) *core.RuleResult {
 			res := &core.RuleResult{}
@@ -85,6 +85,17 @@ func init() {
 								continue
 							}
 							for _, a := range c.Common().Args {
+								// the whole child list (or a tail of it) handed to a helper: every child from that index on
+								if lo, ok := wholeSubOf(a, node); ok {
+									n++
+									if first == nil {
+										first = c
+									}
+									if loopStart < 0 || lo < loopStart {
+										loopStart = lo
+									}
+									continue
+								}
 								if !isSyntaxRegexpPtr(a.Type()) {
 									continue
 								}
@@ -162,4 +173,35 @@ func isChildOf(a ssa.Value, node ssa.Value) bool {
 	}
 	fa, ok := bl.X.(*ssa.FieldAddr)
 	return ok && fa.X == node
+}
+
+// wholeSubOf: a is node.Sub or node.Sub[k:] with a constant k (no upper bound): returns k.
+func wholeSubOf(a ssa.Value, node ssa.Value) (int64, bool) {
+	lo := int64(0)
+	for d := 0; d < 3; d++ {
+		sl, ok := a.(*ssa.Slice)
+		if !ok {
+			break
+		}
+		if sl.High != nil {
+			return 0, false
+		}
+		if sl.Low != nil {
+			k, isK := constInt(sl.Low)
+			if !isK {
+				return 0, false
+			}
+			lo += k
+		}
+		a = sl.X
+	}
+	ld, ok := a.(*ssa.UnOp)
+	if !ok {
+		return 0, false
+	}
+	fa, ok := ld.X.(*ssa.FieldAddr)
+	if !ok || fa.X != node || fieldNameOf(fa) != "Sub" {
+		return 0, false
+	}
+	return lo, true
 }
